@@ -28,6 +28,7 @@ const REMOTE_PORT: &str = "transfer";
 #[derive(Serialize, Deserialize, Clone, Debug)]
 #[serde(rename_all = "snake_case")]
 pub enum IbcSudo {
+    Open { channel: IbcChannel, counterparty_version: Option<String> },
     Connect { channel: IbcChannel },
     Receive { packet: IbcPacket },
     Ack { ack: Binary, packet: IbcPacket },
@@ -37,6 +38,14 @@ pub enum IbcSudo {
 fn ibc_sudo(deps: DepsMut, env: Env, msg: IbcSudo) -> Result<Response, cw20_ics20::ContractError> {
     let relayer = Addr::unchecked("relayer");
     match msg {
+        IbcSudo::Open { channel, counterparty_version } => {
+            let m = match counterparty_version {
+                None => cosmwasm_std::IbcChannelOpenMsg::OpenInit { channel },
+                Some(v) => cosmwasm_std::IbcChannelOpenMsg::OpenTry { channel, counterparty_version: v },
+            };
+            cw20_ics20::ibc::ibc_channel_open(deps, env, m)?;
+            Ok(Response::new())
+        }
         IbcSudo::Connect { channel } => {
             let r = cw20_ics20::ibc::ibc_channel_connect(deps, env, IbcChannelConnectMsg::OpenAck { channel, counterparty_version: "ics20-1".into() })?;
             Ok(Response::new().add_submessages(r.messages).add_attributes(r.attributes))
@@ -329,7 +338,10 @@ impl Run {
             (gas_down(c.default_gas_limit), w.name_of(&c.gov_contract), a.is_allowed, gas_down(a.gas_limit))
         };
         let inflight: Vec<Value> = self.pkts.iter().enumerate().filter(|(_, p)| !p.done).map(|(i, _)| json!(i + 1)).collect();
-        json!({"chan": Value::Object(chans), "held": held, "ubal": Value::Object(ubal), "defaultGas": dgas, "admin": admin,
+        let lc: Result<cw20_ics20::msg::ListChannelsResponse, _> = w.smart(&self.ics, &QueryMsg::ListChannels {});
+        let mut regs: Vec<String> = lc.map(|l| l.channels.into_iter().map(|c| format!("{}>{}:{}", c.id, c.counterparty_endpoint.port_id, c.counterparty_endpoint.channel_id)).collect()).unwrap_or_default();
+        regs.sort();
+        json!({"regs": regs, "chan": Value::Object(chans), "held": held, "ubal": Value::Object(ubal), "defaultGas": dgas, "admin": admin,
             "allow": {"listed": listed, "gas": gas}, "tokFails": self.tok_fails, "inflight": inflight, "legacy": legacy})
     }
 
@@ -439,6 +451,27 @@ impl Run {
                     self.pkts[idx - 1].done = true;
                 }
                 r
+            }
+            "chan_open" | "chan_connect" => {
+                let ch = s(&args, "ch");
+                let order = if s(&args, "order") == "ordered" { IbcOrder::Ordered } else { IbcOrder::Unordered };
+                let channel = IbcChannel::new(
+                    IbcEndpoint { port_id: OUR_PORT.into(), channel_id: ch.clone() },
+                    IbcEndpoint { port_id: REMOTE_PORT.into(), channel_id: remote_of(&ch) },
+                    order,
+                    s(&args, "version"),
+                    "connection-0",
+                );
+                if act == "chan_open" {
+                    let cpv = match s(&args, "cpv").as_str() { "none" => None, v => Some(v.to_string()) };
+                    call(&mut self.w, |w| w.app.wasm_sudo(ics.clone(), &IbcSudo::Open { channel, counterparty_version: cpv }))
+                } else {
+                    let r = call(&mut self.w, |w| w.app.wasm_sudo(ics.clone(), &IbcSudo::Connect { channel }));
+                    if r.ok && !self.channels.contains(&ch) {
+                        self.channels.push(ch);
+                    }
+                    r
+                }
             }
             "allow" => {
                 let sender = self.w.addr(&by);
@@ -606,7 +639,11 @@ pub fn random_run(rng: &mut Rng, run_no: u64, len: usize, out: &mut Out) {
             73..=80 => json!({"act":"tokfail","by":"env","args":{"on":rng.chance(1,2)}}),
             81..=88 => json!({"act":"allow","by":rng.pick(&["gov","gov","gov2","u1"]),"args":{"gas":*rng.pick(&[-1i64,100,200,800,1000,GAS_TOP])}}),
             89..=92 => json!({"act":"update_admin","by":rng.pick(&["gov","gov2","u1"]),"args":{"new":rng.pick(&["gov","gov2"])}}),
-            93..=95 => json!({"act":"migrate","by":"creator","args":{"gas":*rng.pick(&[-1i64,300,50])}}),
+            93..=94 => json!({"act":"migrate","by":"creator","args":{"gas":*rng.pick(&[-1i64,300,50])}}),
+            95 => {
+                let a = json!({"ch":rng.pick(&["ch1","ch2"]),"version":rng.pick(&["ics20-1","ics20-1","ics20-2"]),"order":rng.pick(&["unordered","unordered","ordered"]),"cpv":rng.pick(&["none","ics20-1","ics20-9"])});
+                json!({"act": if rng.chance(1, 2) {"chan_open"} else {"chan_connect"}, "by":"relayer", "args": a})
+            }
             _ => json!({"act":"advance","by":"env","args":{"dh":1,"dt":rng.range(1,20)}}),
         };
         obs = run.step(&st, out);
